@@ -178,7 +178,7 @@ Definition write_action (v : value) : tres prim :=
   | _ => ill_typed
   end.
 
-(** * NameTree<Primitive> (object/types.rs): the reader; the writer is `todo!()` *)
+(** * NameTree<Primitive> (object/types.rs) *)
 Definition k_Limits : bytes := [76; 105; 109; 105; 116; 115].
 Definition k_Kids : bytes := [75; 105; 100; 115].
 Definition k_Names : bytes := [78; 97; 109; 101; 115].
@@ -220,8 +220,34 @@ Definition read_nametree (rs : N -> tres prim) (p : prim) : tres value :=
   | None, None => TOk (VPair limits (VDirect (VVec [])))
   end.
 
-Definition site_nametree_todo : N := 1199.    (* object/types.rs: todo!("impl ObjectWrite for NameTree") *)
-Definition write_nametree (v : value) : tres prim := TPanic site_nametree_todo.
+(* object/types.rs: impl ObjectWrite for NameTree (after fix C15-c: the writer mirrors NumberTree's) *)
+Fixpoint write_names (l : list value) : tres (list prim) :=
+  match l with
+  | [] => TOk []
+  | VPair (VStr n) (VPrim v) :: t => tdo r <- write_names t; TOk (PStr n :: v :: r)
+  | _ => ill_typed
+  end.
+Fixpoint write_kids (l : list value) : tres (list prim) :=
+  match l with
+  | [] => TOk []
+  | VRef i g :: t => tdo r <- write_kids t; TOk (PRef i g :: r)
+  | _ => ill_typed
+  end.
+Definition write_nametree (v : value) : tres prim :=
+  match v with
+  | VPair limits node =>
+    tdo d0 <- (match limits with
+               | VNone => TOk []
+               | VSome (VPair (VStr x) (VStr y)) => TOk (dinsert k_Limits (PArr [PStr x; PStr y]) [])
+               | _ => ill_typed
+               end);
+    match node with
+    | VSome (VVec l) => tdo ns <- write_names l; TOk (PDict (dinsert k_Names (PArr ns) d0))
+    | VDirect (VVec l) => tdo ks <- write_kids l; TOk (PDict (dinsert k_Kids (PArr ks) d0))
+    | _ => ill_typed
+    end
+  | _ => ill_typed
+  end.
 
 (** * PagesRc (object/types.rs): an RcRef<PagesNode> that must be a page-tree node.  Modelled on the domain the
       generators use — the reference designates a minimal page-tree node << /Type /Pages /Kids [] /Count 0 >> — together
